@@ -78,11 +78,29 @@ Definition partition_constraints (st : pstate) : list (edict * sense) :=
       vals)
     vals.
 
+(** * Solve time, several partitions (pep.py, PEP._solve_with_wrapper)
+
+    [BlockPartition.list_of_partitions] is the class-level registry: BlockPartition.__init__ appends
+    EVERY partition to it, whether it was built by [pep.declare_block_partition(d)] (a staticmethod:
+    any PEP object, or the class, will do) or directly by [BlockPartition(d)]; PEP() resets it.
+    At solve time
+      [for partition in BlockPartition.list_of_partitions: partition.add_partition_constraints()]
+    and later, with no guard,
+      [for partition in BlockPartition.list_of_partitions:
+         for constraint in partition.list_of_constraints: wrapper.send_constraint_to_solver(constraint)]
+    so what reaches the wrapper from the partitions is the concatenation, in registry order, of the
+    lists of ALL registered partitions (one-block and never-used partitions contribute nothing and
+    change nothing for the others). *)
+Definition sent_partition_constraints (parts : list pstate) : list (edict * sense) :=
+  flat_map partition_constraints parts.
+
 (** * The world of the correspondence stream: objects, several partitions, one Point.counter. *)
 Inductive wop : Type :=
 | WLeaf                                   (* Point() *)
 | WTerm (t : pterm)                       (* real operators over existing objects; PVar v = object number v *)
-| WPart (d : nat)                         (* pep.declare_block_partition(d) *)
+| WPart (d : nat)                         (* pep.declare_block_partition(d), through any PEP object *)
+| WPartC (d : nat)                        (* BlockPartition(d): the class constructor, same registry *)
+| WSolve                                  (* pep.solve(): the scalar constraints received by the wrapper *)
 | WGet (p : nat) (obj : nat) (k : nat)    (* partitions[p].get_block(objects[obj], k) *)
 | WCons (p : nat).                        (* partitions[p].add_partition_constraints(); list_of_constraints *)
 
@@ -117,9 +135,12 @@ Definition wstep (w : world) (o : wop) : world * D :=
       let pd := compileP (fun _ => 0) (fun v => nth v (w_objs w) []) t in
       (mkW (w_ctr w) (w_objs w ++ [pd]) (w_parts w) (w_base w),
        DL [DN (length (w_objs w)); dump_pdict pd])
-  | WPart d =>
+  | WPart d | WPartC d =>
       (mkW (w_ctr w) (w_objs w) (w_parts w ++ [init_partition d 0]) (w_base w),
        DL [DN (length (w_parts w)); DN d])
+  | WSolve =>
+      (* a PEP of the stream has no metric, no constraint and no function of its own *)
+      (w, DL (map dump_cons (sent_partition_constraints (w_parts w))))
   | WGet p obj k =>
       match nth_error (w_parts w) p, nth_error (w_objs w) obj with
       | Some st, Some pd =>
